@@ -6,7 +6,7 @@ TECH = "symbolic execution of the real go/ssa of /repo (own executor 'symgo') + 
 
 CHECKS = {
  "C01": dict(
-  text="bounded symbolic model checking of the login-callback route through Provider.HttpHandler(): the request (id in query and/or body, any method), the storage answer (request absent | present with every field a free string, Done free, binding POST / Redirect / other), every storage fault and every key-material shape are symbolic; on every path the solver decides: Success => the lookup succeeded, Done() was consulted and true, no fault; a non-Success message carries no subject, attribute, authn statement or signature; user info is fetched only after Done; an HTTP error carries no message",
+  text="bounded symbolic model checking of the login-callback route through Provider.HttpHandler(): the request (id in query and/or body, any method), the storage answer (request absent | present with every field a free string, Done free, binding POST / Redirect / other), every storage fault (a failing user-info call may have filled the record before failing) and every key-material shape are symbolic; on every path the solver decides: Success => the lookup succeeded, Done() was consulted and true, no fault; a non-Success message carries no subject, attribute, authn statement or signature; user info is fetched only after Done; an HTTP error carries no message",
   note="histories: 'arbitrary storage answer per call' (DESIGN §3.7) plus one earlier nominal request of another session / a signed-metadata request served on the same provider first (DESIGN §9.6); user record: e-mail / user name optional, <=1 custom attribute; reply bytes are encoding/xml's (contract); strings unbounded",
   ref="DESIGN.md §5 C01"),
  "C02": dict(
@@ -42,7 +42,7 @@ CHECKS = {
   note="Level S decode model: every type-consistent struct is a possible decoding result; panics inside libraries on malformed bytes are outside the claim; storage contract: a nil error comes with a non-nil record",
   ref="DESIGN.md §5 C09"),
  "C10": dict(
-  text="bounded symbolic model checking of all routes with a storage whose every call occurrence may fail (symbolic decision per call; the two signing-key getters additionally return nil record / key without certificate / certificate without key / empty certificate; the configured signature algorithm is a free string): all fault combinations are covered at once; the solver decides that a faulted request ends in a 5xx http.Error or a non-Success message, with no Success, no user data, no signed metadata, no persist after the fault and no panic",
+  text="bounded symbolic model checking of all routes with a storage whose every call occurrence may fail (symbolic decision per call; a failing service-provider lookup may return a record together with the error, a failing user-info call may have filled the record; the two signing-key getters additionally return nil record / key without certificate / certificate without key / empty certificate; the configured signature algorithm is a free string): all fault combinations are covered at once; the solver decides that a faulted request ends in a 5xx http.Error or a non-Success message, with no Success, no user data, no signed metadata, no persist after the fault and no panic",
   note="user record and message content pinned to nominal shapes (profile); ResponseWriter failures out of scope",
   ref="DESIGN.md §5 C10"),
  "C11": dict(
